@@ -36,6 +36,7 @@ type unitKind struct {
 	PSI      bool
 	NeedsPAT bool // PMT PID must be announced by a PAT first
 	Early    bool // PAT/PMT: returned by the call that reads the final packet
+	Big      bool // unit of many packets: single deviations over the small alphabet only, no pairs
 }
 
 // lastSectionStart returns the offset (within unit bytes) of the first byte of the last section.
@@ -104,6 +105,29 @@ func c02Kinds(seed int64) []unitKind {
 			}
 			return withTrail(PSIUnit(pmtPID, p, [][]byte{SecPMT(a, ref.SecHdr{CNI: true, Version: 9}), sb}, []ExpData{{Kind: "PMT", Table: a}, {Kind: "PMT", Table: b}}), t)
 		}},
+		// units beyond 1024 bytes on the PAT / a PMT PID: a section may be up to 1024 bytes, a unit may hold a pointer
+		// field, filler and several sections
+		{Name: "pat-2-big-sections", PSI: true, Early: true, Big: true, Make: func(p, t int) SUnit {
+			var a1, a2 []uint16
+			for i := 0; i < 180; i++ {
+				a1 = append(a1, uint16(i+1), uint16(0x1000+i))
+				a2 = append(a2, uint16(i+201), uint16(0x1400+i))
+			}
+			a, b := modelPAT(a1...), modelPAT(a2...)
+			return withTrail(PSIUnit(0, p, [][]byte{SecPAT(a, ref.SecHdr{CNI: true, LSN: 1}), SecPAT(b, ref.SecHdr{CNI: true, SN: 1, LSN: 1})},
+				[]ExpData{{Kind: "PAT", Table: a}, {Kind: "PAT", Table: b}}), t)
+		}},
+		{Name: "pmt-section-near-1024-bytes", PSI: true, Early: true, Big: true, NeedsPAT: true, Make: func(p, t int) SUnit {
+			var d *astits.PMTData
+			for n := 60; ; n++ { // the largest model that still fits a section
+				x := modelPMT(1, 0x100, n)
+				if len(SecPMT(x, ref.SecHdr{CNI: true})) > 1024 {
+					break
+				}
+				d = x
+			}
+			return withTrail(PSIUnit(pmtPID, p, [][]byte{SecPMT(d, ref.SecHdr{CNI: true, Version: 3})}, []ExpData{{Kind: "PMT", Table: d}}), t)
+		}},
 		{Name: "sdt-2-sections", PSI: true, Make: func(p, t int) SUnit {
 			a, b := modelSDT(2), modelSDT(9)
 			return withTrail(PSIUnit(0x11, p, [][]byte{SecSDT(a, ref.SecHdr{CNI: true, LSN: 1}), SecSDT(b, ref.SecHdr{CNI: true, SN: 1, LSN: 1})},
@@ -135,6 +159,12 @@ func c02Kinds(seed int64) []unitKind {
 			d := modelEIT(2)
 			st := ref.Short(0x72, false, true, bytes.Repeat([]byte{0xa5}, 40), false)
 			return withTrail(PSIUnit(0x12, p, [][]byte{st, SecEIT(d, ref.SecHdr{CNI: true})}, []ExpData{{Kind: "EIT", Table: d}}), t)
+		}},
+		{Name: "empty-stuffing-table-then-eit", PSI: true, Make: func(p, t int) SUnit {
+			// a stuffing section may be empty (EN 300 468 5.2.8: section_length counts the data bytes, none here)
+			d := modelEIT(2)
+			st := ref.Short(0x72, false, true, nil, false)
+			return withTrail(PSIUnit(0x12, p, [][]byte{st, st, SecEIT(d, ref.SecHdr{CNI: true})}, []ExpData{{Kind: "EIT", Table: d}}), t)
 		}},
 		{Name: "tot", PSI: true, Make: func(p, t int) SUnit {
 			d := modelTOT()
@@ -333,10 +363,16 @@ func checkC02(c *mc.Ctx) {
 						// one deviation: packet i carries only cbytes
 						for i := 0; i < n; i++ {
 							for cb := 1; cb <= 183; cb++ {
+								if k.Big && cb != 1 && cb != 2 && cb != 91 && cb != 182 && cb != 183 {
+									continue
+								}
 								ch := make([]int, i+1)
 								ch[i] = cb
 								addCase(ki, c02Case{k.Name, ptr, tr, ch, pad, second, false})
 							}
+						}
+						if k.Big {
+							continue
 						}
 						// the first packet's deviations again behind a larger unit of the same PID
 						if ptr == 0 && tr == 0 {
@@ -400,7 +436,7 @@ func checkC02(c *mc.Ctx) {
 	})
 	_ = skipped
 	c.Ev.AddScenario(mc.Scenario{Name: "single-unit-packetisation", SpaceSize: total, Executed: done, Exhaustive: done == total,
-		Bound: "11 unit kinds x pointer_field {0,1,7,50} x trailing stuffing {0,1,5,190} x {AF stuffing, 0xFF padding} x {flush by next unit, flush at EOF} x (greedy + every single chunk deviation c in 1..183 at every packet + pairs over {1,2,3,91,182,183})"})
+		Bound: "21 unit kinds (two of them beyond 1024 bytes on the PAT and a PMT PID, single deviations over {1,2,91,182,183} only) x pointer_field {0,1,7,50} x trailing stuffing {0,1,5,190} x {AF stuffing, 0xFF padding} x {flush by next unit, flush at EOF} x (greedy + every single chunk deviation c in 1..183 at every packet + pairs over {1,2,3,91,182,183})"})
 	c02PMTBeforePAT(c)
 	c02MultiSectionPAT(c)
 	c02Continuous(c)
